@@ -468,7 +468,7 @@ def run(ctx):
     impl = Impl()
     # ---- route (b), PSyclone part first; the compiler runs in the background during route (a)
     items, meta = [], {}
-    n_b = ctx.pick(4, 60)
+    n_b = ctx.pick(3, 60)
     brng = ctx.rng("b")
     for i in range(n_b):
         g = gen.SGen(brng, procs=(i % 2 == 0), clash=(i % 5 == 1), allow_cb=(i % 3 == 0))
@@ -524,8 +524,9 @@ def run(ctx):
     fails = []
     oos = 0
     budget = ctx.pick(38, 420)
+    t_a = time.time()
     for i, cfg in enumerate(plan):
-        if time.time() - t_start > budget and i >= 18:
+        if time.time() - t_a > budget and i >= 12:
             ctx.notes["route_a_truncated_at"] = i
             break
         g = gen.SGen(rng, defects=cfg["defects"], clash=cfg["clash"], simple=cfg["simple"], allow_cb=cfg["allow_cb"],
